@@ -44,6 +44,7 @@ import (
 	"fmt"
 	"io"
 	"net"
+	"net/http"
 	"os"
 	"strconv"
 	"strings"
@@ -51,8 +52,14 @@ import (
 	"testing"
 	"time"
 
+	"github.com/gorilla/websocket"
+	"github.com/named-data/ndnd/fw/core"
+	"github.com/named-data/ndnd/fw/defn"
+	"github.com/named-data/ndnd/fw/dispatch"
 	fwface "github.com/named-data/ndnd/fw/face"
+	"github.com/named-data/ndnd/fw/fw"
 	enc "github.com/named-data/ndnd/std/encoding"
+	ndnlog "github.com/named-data/ndnd/std/log"
 	appface "github.com/named-data/ndnd/std/engine/face"
 	"verif/harness/common"
 )
@@ -85,6 +92,22 @@ func Block(typ uint64, n int, seed int) []byte {
 	p := t.EncodeInto(b)
 	p += l.EncodeInto(b[p:])
 	copy(b[p:], Fill(n, seed))
+	return b
+}
+
+// InterestBlock: a block that is an Interest (so that a full NDNLP link service accepts it): name of one
+// generic component of n filler bytes, Nonce 01020304.
+func InterestBlock(n int, seed int) []byte {
+	comp := Block(8, n, seed)
+	name := append(append([]byte{7}, tlnum(len(comp))...), comp...)
+	body := append(name, 0x0a, 4, 1, 2, 3, 4)
+	return append(append([]byte{5}, tlnum(len(body))...), body...)
+}
+
+func tlnum(x int) []byte {
+	t := enc.TLNum(x)
+	b := make([]byte, t.EncodingLength())
+	t.EncodeInto(b)
 	return b
 }
 
@@ -160,6 +183,9 @@ type run struct {
 	udp     bool
 	udpc    *net.UDPConn // udp (receive leg only): the harness's plain peer socket
 	bp      *backPressure // tcpb: sender behind a peer that does not read for a while
+	lis     bool            // listener leg: blocks are Interests, frames are what reaches the forwarding thread
+	ws      *websocket.Conn // listener leg, WebSocket: the client's end
+	closeL  func()          // listener leg: stop the listener
 	ln      net.Listener  // tcpr: the peer's listener (the permanent face dials it again after a failure)
 	ends    []int         // tcpr: ends of the blocks defined on the current connection
 	defined int           // tcpr: bytes defined on the current connection
@@ -308,6 +334,117 @@ func (r *run) concurrentSend(na, nb int) string {
 	wc.mu.Lock()
 	defer wc.mu.Unlock()
 	return fmt.Sprintf("k=%d f=%s", len(a)+len(b), frameBytes(wc.written))
+}
+
+// ---------------------------------------------------------------- listener legs
+//
+// new lis tcp <lifetime s>   the REAL TCPListener accepts the harness's connection and starts a face of
+//                            its own (UnicastTCPTransport + NDNLPLinkService); blocks are Interests
+//                            (InterestBlock) written with `rd`, `pause <ms>` lets real time pass; what
+//                            the face queues to the (recording) forwarding thread is reported at eof
+// new lis ws 0               the same through the REAL WebSocket listener handler: `sf` sends the next
+//                            block as one binary WebSocket message
+
+type lisThread struct{ r *run }
+
+func (t *lisThread) String() string { return "lis-thread" }
+func (t *lisThread) QueueInterest(p *defn.Pkt) {
+	t.r.mu.Lock()
+	t.r.frames = append(t.r.frames, strconv.Itoa(len(p.Raw))+":"+strconv.FormatUint(fnv64(p.Raw), 16))
+	t.r.nframes++
+	t.r.mu.Unlock()
+}
+func (t *lisThread) QueueData(p *defn.Pkt) { t.QueueInterest(p) }
+func (t *lisThread) GetNumPitEntries() int { return 0 }
+func (t *lisThread) GetNumCsEntries() int  { return 0 }
+
+func startListener(kind string, lifetimeS int) *run {
+	r := &run{kind: "lis" + kind, done: make(chan string, 1), offered: -1, isSock: true, lis: true}
+	ndnlog.SetLevel(ndnlog.FatalLevel)
+	cfg := core.DefaultConfig()
+	cfg.Faces.Tcp.Lifetime = uint64(lifetimeS)
+	core.LoadConfig(cfg, "/")
+	fwface.Configure()
+	dispatch.InitializeFWThreads([]dispatch.FWThread{&lisThread{r}})
+	fw.Threads = make([]*fw.Thread, 1) // only its length is used (name-hash dispatch)
+	switch kind {
+	case "tcp":
+		port := freeTCPPort()
+		if port == 0 {
+			return nil
+		}
+		l, err := fwface.MakeTCPListener(defn.MakeTCPFaceURI(4, "127.0.0.1", port))
+		if err != nil {
+			return nil
+		}
+		go l.Run()
+		var c net.Conn
+		for i := 0; i < 400; i++ {
+			if c, err = net.Dial("tcp4", fmt.Sprintf("127.0.0.1:%d", port)); err == nil {
+				break
+			}
+			time.Sleep(5 * time.Millisecond)
+		}
+		if err != nil {
+			l.Close()
+			return nil
+		}
+		r.sock = c
+		r.closeL = func() { l.Close() }
+	case "ws":
+		wl, err := fwface.NewWebSocketListener(fwface.WebSocketListenerConfig{Bind: "127.0.0.1", Port: 9696})
+		if err != nil {
+			return nil
+		}
+		inner, err := net.Listen("tcp4", "127.0.0.1:0")
+		if err != nil {
+			return nil
+		}
+		srv := &http.Server{Handler: fwface.VerifWebSocketHandler(wl)}
+		go srv.Serve(inner)
+		c, _, err := websocket.DefaultDialer.Dial("ws://"+inner.Addr().String()+"/", nil)
+		if err != nil {
+			srv.Close()
+			return nil
+		}
+		r.ws = c
+		r.send = func(b []byte) { c.WriteMessage(websocket.BinaryMessage, b) }
+		r.closeS = func() { c.Close() }
+		r.closeL = func() { srv.Close() }
+	default:
+		return nil
+	}
+	return r
+}
+
+func freeTCPPort() uint16 {
+	l, err := net.Listen("tcp4", "127.0.0.1:0")
+	if err != nil {
+		return 0
+	}
+	defer l.Close()
+	return uint16(l.Addr().(*net.TCPAddr).Port)
+}
+
+// finishListener: the peer closes; wait until the face has been quiet for a while, stop the listener
+func (r *run) finishListener() string {
+	if r.ws != nil {
+		r.ws.Close()
+	} else {
+		r.sock.Close()
+	}
+	for n, quiet := r.frameCount(), 0; quiet < 4; {
+		time.Sleep(25 * time.Millisecond)
+		if m := r.frameCount(); m != n {
+			n, quiet = m, 0
+		} else {
+			quiet++
+		}
+	}
+	r.closeL()
+	r.mu.Lock()
+	defer r.mu.Unlock()
+	return "nil f=" + r.take()
 }
 
 // backPressure: the blocks are handed to the sendFrame of a real TCP transport by one goroutine, one
@@ -584,6 +721,10 @@ func (r *run) sockFinish() string {
 		return "dead " + r.result
 	}
 	r.closed = true
+	if r.lis {
+		r.result = r.finishListener()
+		return r.result
+	}
 	if r.bp != nil {
 		r.result = r.finishBackPressure()
 		return r.result
@@ -726,6 +867,11 @@ func exec(op string) string {
 			cur = startSock(f[1], 1<<30, common.Atoi(f[2]))
 		} else if f[1] == "appsend" {
 			cur = startAppSend()
+		} else if f[1] == "lis" {
+			if len(f) != 4 {
+				return "bad-op"
+			}
+			cur = startListener(f[2], common.Atoi(f[3]))
 		} else if f[1] == "tcpr" {
 			if len(f) != 3 {
 				return "bad-op"
@@ -753,6 +899,9 @@ func exec(op string) string {
 			return "skip"
 		}
 		b := Block(common.Atou(f[1]), common.Atoi(f[2]), common.Atoi(f[3]))
+		if cur.lis {
+			b = InterestBlock(common.Atoi(f[2]), common.Atoi(f[3]))
+		}
 		if cur.send != nil {
 			cur.blocks = append(cur.blocks, b)
 			return "ok"
@@ -760,6 +909,12 @@ func exec(op string) string {
 		cur.pending = append(cur.pending, b...)
 		cur.defined += len(b)
 		cur.ends = append(cur.ends, cur.defined)
+		return "ok"
+	case "pause":
+		if cur == nil || !cur.lis || len(f) != 2 {
+			return "skip"
+		}
+		time.Sleep(time.Duration(common.Atoi(f[1])) * time.Millisecond)
 		return "ok"
 	case "rst":
 		if cur == nil || cur.ln == nil || len(f) != 1 {
@@ -1007,6 +1162,10 @@ func gen(g *common.Gen) {
 				stall = 2500
 			}
 			genBackPressure(g, r, stall)
+			continue
+		}
+		if i%8 == 2 && ((i/8)%16 == 9 || (i/8)%16 == 13) {
+			genListener(g, r, (i/8)%16 == 9, i == 74)
 			continue
 		}
 		if i%8 == 6 {
@@ -1300,6 +1459,47 @@ func genBackPressure(g *common.Gen, r *common.Rand, stall int) {
 		sizedBlock(g, r, size)
 		g.Op("sf")
 		g.Stat("sf")
+	}
+	g.Op("eof")
+}
+
+// genListener: Interests through a face made by the real TCP listener (stream cut into arbitrary reads;
+// once per batch the connection gets older than the configured TCP face lifetime of 1 s in the middle
+// of the stream) or by the real WebSocket listener handler (one binary message per block, sizes on both
+// sides of the connection's 4096-byte read buffer).
+func genListener(g *common.Gen, r *common.Rand, tcp bool, old bool) {
+	kind := "ws"
+	if tcp {
+		kind = "tcp"
+		g.Op("new lis tcp 1")
+	} else {
+		g.Op("new lis ws 0")
+	}
+	g.Stat("hist-lis-" + kind)
+	n := r.Range(10, 24)
+	for j := 0; j < n; j++ {
+		size := common.Pick(r, []int{0, 1, 100, 230, 240, 1000, 4000, 4070, 4080, 4090, 4100, 4200, 5000, 6500, 8000, 8700})
+		if r.Chance(1, 3) {
+			size = r.Range(0, 8700)
+		}
+		g.Op("blk 8 %d %d", size, r.Range(0, 40))
+		g.Stat("blk")
+		if !tcp {
+			g.Op("sf")
+			g.Stat("sf")
+			continue
+		}
+		if old && j == n/2 {
+			g.Op("rd %d", r.Range(1, 20)) // the connection grows old in the middle of a block
+			g.Op("pause 1150")
+			g.Stat("lis-connection-older-than-lifetime")
+		}
+		for k := r.Range(1, 3); k > 0; k-- {
+			g.Op("rd %d", common.Pick(r, []int{1, 7, 100, 3000, 1 << 20}))
+		}
+	}
+	if tcp {
+		g.Op("rd %d", 1<<20)
 	}
 	g.Op("eof")
 }
